@@ -1,5 +1,49 @@
 """liquid2/output.py"""
 from pyvc.api import *
+from pyvc.specs import spec
+from pyvc.values import SBool
+import z3
+
+
+@spec("buf", lambda o: o.getvalue())
+def _buf(ex, o):
+    """Abstract view of a StringIO: its content."""
+    return ex.getattr(o, "_buf")
+
+
+def _stores_verbatim_py(o):
+    import io
+
+    probe = io.StringIO.__new__(type(o)) if False else o
+    before = o.getvalue()
+    io.StringIO.write(o, "\r\n\r")
+    return o.getvalue() == before + "\r\n\r"
+
+
+@spec("stores_verbatim", _stores_verbatim_py)
+def _stores_verbatim(ex, o):
+    """The stream performs no newline translation on write."""
+    nl = ex.getattr(o, "_newline")
+    return nl in ("", "\n") if isinstance(nl, str) else False
+
+
+def _build_write(model, case, fm):
+    from liquid2.output import LimitedStringIO
+    import io
+
+    o = LimitedStringIO(limit=fm(model.get("self.limit"), 0))
+    io.StringIO.write(o, fm(model.get("self._buf"), ""))
+    o.size = fm(model.get("self.size"), 0)
+    s = fm(model.get("__s"), "")
+    return o.write, [s], {}, {"self": o, "__s": s}
+
+
+def _build_init(model, case, fm):
+    from liquid2.output import LimitedStringIO
+
+    o = LimitedStringIO.__new__(LimitedStringIO)
+    limit = fm(model.get("limit"), 0)
+    return o.__init__, [limit], {}, {"self": o, "limit": limit}
 
 LSIO = Rec("LimitedStringIO", size=Int, limit=Int, _buf=Str, _newline=Union(Const(""), Const("\n")))
 
@@ -11,13 +55,14 @@ contract(
     post=[
         "self.size == old(self.size) + utf8len(__s)",
         "self.size <= self.limit or len(__s) == 0",
-        "self._buf == old(self._buf) + __s",   # a limit that is not exceeded never changes what is written
+        "buf(self) == old(buf(self)) + __s",   # a limit that is not exceeded never changes what is written
         "result == len(__s)",
         "self.limit == old(self.limit)",
     ],
     raises={"OutputStreamLimitError": "len(__s) > 0 and self.size + utf8len(__s) > self.limit"},
     modifies=["self.size", "self._buf"],
     returns=Int,
+    build=_build_write,
 )
 
 contract(
@@ -30,16 +75,17 @@ contract(
         "self.size == 0",
         "self.limit == limit",
         # the stream must store what is written, byte for byte: no newline translation
-        "self._newline == '' or self._newline == '\\n'",
+        "stores_verbatim(self)",
     ],
     raises={},
     always_inline=True,
+    build=_build_init,
 )
 
 contract(
     "liquid2.output:NullIO.write",
     props=["C06", "C18"],
     params={"self": Rec("NullIO", _buf=Str), "_s": Str},
-    post=["result == 0", "self._buf == old(self._buf)"],
+    post=["result == 0", "buf(self) == old(buf(self))"],
     raises={},
 )
